@@ -272,6 +272,12 @@ func planC11(tier string, root *simcore.RNG) *plan {
 			if countBatches(j.Batches) > 3000 {
 				j.Batches = genPartition(r, cnt, len(j.Batches), "mixed")
 			}
+			// a renderer may call Close in the middle of its output (single producer)
+			if nb := countBatches(j.Batches); len(j.Batches) == 1 && nb > 2 && r.Intn(4) == 0 {
+				for k := 0; k < 1+r.Intn(3); k++ {
+					j.CloseAt = append(j.CloseAt, 1+r.Intn(nb-1))
+				}
+			}
 			sc.Groups = [][]Job{{j}}
 			sc.Sites = activeSites(r, j.Sink, false)
 			sc.Sched = genSched(r, victims)
